@@ -229,6 +229,36 @@ class MiniEval:
             return subj == self.expr(pat.value, env)
         if isinstance(pat, ast.MatchSingleton):
             return subj is pat.value
+        if isinstance(pat, ast.MatchSequence):
+            if not isinstance(subj, (list, tuple)):
+                return False
+            pats = pat.patterns
+            star = next((i for i, p_ in enumerate(pats) if isinstance(p_, ast.MatchStar)), None)
+            if star is None:
+                if len(subj) != len(pats):
+                    return False
+                return all(self.match(p_, x, env) for p_, x in zip(pats, subj))
+            head, tail = pats[:star], pats[star + 1:]
+            if len(subj) < len(head) + len(tail):
+                return False
+            if not all(self.match(p_, x, env) for p_, x in zip(head, subj)):
+                return False
+            if tail and not all(self.match(p_, x, env) for p_, x in zip(tail, subj[len(subj) - len(tail):])):
+                return False
+            if pats[star].name:
+                env[pats[star].name] = list(subj[len(head):len(subj) - len(tail)])
+            return True
+        if isinstance(pat, ast.MatchMapping):
+            if not isinstance(subj, dict):
+                return False
+            keys = [self.expr(k, env) for k in pat.keys]
+            if not all(k in subj for k in keys):
+                return False
+            if not all(self.match(p_, subj[k], env) for k, p_ in zip(keys, pat.patterns)):
+                return False
+            if pat.rest:
+                env[pat.rest] = {k: v for k, v in subj.items() if k not in keys}
+            return True
         raise Unsupported(f'pattern {type(pat).__name__}')
 
     def assign(self, t: ast.expr, v: Any, env: dict) -> None:
@@ -267,6 +297,8 @@ class MiniEval:
             return self.globals[name]
         if name in _BUILTIN_TYPES:
             return _BUILTIN_TYPES[name]
+        if name in _ABC_TYPES:
+            return _ABC_TYPES[name]  # only usable in isinstance(): the abstract container classes of collections.abc
         raise Unsupported(f'name {name!r} not in the evaluation environment')
 
     def expr(self, e: ast.expr, env: dict) -> Any:
@@ -466,7 +498,7 @@ class MiniEval:
             if f.id == 'isinstance' and len(args) == 2:
                 return self.isinstance_(args[0], args[1])
             if f.id in ('len', 'bool', 'str', 'tuple', 'list', 'set', 'frozenset', 'dict', 'sorted', 'any', 'all',
-                        'callable', 'issubclass', 'min', 'max', 'repr', 'int', 'enumerate', 'zip', 'range', 'reversed'):
+                        'callable', 'issubclass', 'min', 'max', 'repr', 'int', 'float', 'enumerate', 'zip', 'range', 'reversed'):
                 import builtins
                 return getattr(builtins, f.id)(*args, **kwargs)
             raise Unsupported(f'call of {f.id!r}')
@@ -518,3 +550,8 @@ class _Break(Exception):
 
 class _Continue(Exception):
     pass
+
+import collections.abc as _abc  # noqa: E402
+
+_ABC_TYPES = {n: getattr(_abc, n) for n in ('Collection', 'Container', 'Sized', 'Iterable', 'Iterator', 'Sequence', 'MutableSequence',
+                                            'Mapping', 'MutableMapping', 'Set', 'MutableSet', 'Hashable', 'Callable')}
